@@ -122,7 +122,7 @@ func (s *rrSegFetcher) doCheck() {
 
 	// queue outgoing interest for the next segment
 	args := ExpressRArgs{
-		Name: append(state.fetchName,
+		Name: append(state.fetchName[:len(state.fetchName):len(state.fetchName)],
 			enc.NewSegmentComponent(seg),
 		),
 		Config: &ndn.InterestConfig{
